@@ -1,5 +1,5 @@
 (** EntryVerify.v — scenario decoding for the correspondence check of the verification core. *)
-From InToto.Model Require Import Base Json Strs Utf8 Canon Rule Glob Rules Expiry Subst Meta Verify.
+From InToto.Model Require Import Base Json Strs Utf8 Canon Rule Glob Rules Expiry Subst Meta Verify VerifySeq.
 
 Definition S_root : str := [114;111;111;116]%N.
 Definition S_now_us : str := [110;111;119;95;117;115]%N.
@@ -7,6 +7,10 @@ Definition S_now_s : str := [110;111;119;95;115]%N.
 Definition S_step_name : str := [115;116;101;112;95;110;97;109;101]%N.
 Definition S_load_err : str := [108;111;97;100;95;101;114;114]%N.
 Definition S_times : str := [116;105;109;101;115]%N.
+Definition S_params_seq : str := [112;97;114;97;109;115;95;115;101;113]%N.
+Definition S_exec_seq : str := [101;120;101;99;95;115;101;113]%N.
+Definition S_seq : str := [115;101;113]%N.
+Definition S_after : str := [97;102;116;101;114]%N.
 
 Definition latin1 (j : json) : option (list N) := match j with JStr s => Some s | _ => None end.
 
@@ -70,7 +74,24 @@ Definition table_exec (j : option json) (cmd : list json) : exec_result :=
 
 Definition ev_json (e : ev) : json := match e with Exec c => JList c end.
 
-(** one or several consecutive verifications of ONE loaded metadata object ("times") *)
+Definition outcome_json (rt : result) : json :=
+  let '(r, tr) := rt in
+  let trj := (S_trace, JList (map ev_json tr)) in
+  match r with
+  | Ok lk => JDict [(S_ok, link_asdict lk); trj]
+  | Err e => match jerr e with JDict l => JDict (l ++ [trj]) | x => x end
+  end.
+
+Definition params_of_json (j : option json) : option json :=
+  match j with Some JNull | None => None | Some p => Some p end.
+
+(** the caller's object as attr.asdict(md.signed) shows it (traditional format only) *)
+Definition md_after_json (m : metadata) : json :=
+  match m with Metablock _ p => payload_asdict p | Envelope _ _ _ _ => JNull end.
+
+(** one verification, or — when "params_seq" is present — consecutive verifications of ONE loaded
+    metadata object, one per element of "params_seq" (run k uses the k-th table of "exec_seq",
+    or "exec" when there is none); answer {"seq": [outcome + "after", ...]} *)
 Definition verify_op (arg : json) : json :=
   let b64 := table_b64 (jget S_b64 arg) in
   let lds := table_loads (jget S_loads arg) in
@@ -86,13 +107,24 @@ Definition verify_op (arg : json) : json :=
       match from_dict b64 lds j with
       | Err e => match jerr e with JDict l => JDict ((S_load_err, JBool true) :: l) | x => x end
       | Ok md =>
-          let params := match jget S_params arg with Some JNull | None => None | Some p => Some p end in
+          let keys := jget_default S_keys (JDict []) arg in
           let sname := match jget S_step_name arg with Some v => v | None => JStr [] end in
-          let '(r, tr) := verify b64 lds sg now_s now_us ex d (mkArgs md (jget_default S_keys (JDict []) arg) params sname) in
-          let trj := (S_trace, JList (map ev_json tr)) in
-          match r with
-          | Ok lk => JDict [(S_ok, link_asdict lk); trj]
-          | Err e => match jerr e with JDict l => JDict (l ++ [trj]) | x => x end
+          match jget S_params_seq arg with
+          | Some (JList pss) =>
+              let exs := match jget S_exec_seq arg with Some (JList l) => l | _ => [] end in
+              let runs := (fix go (pss : list json) (k : nat) :=
+                             match pss with
+                             | [] => []
+                             | p :: pss' =>
+                                 (match nth_error exs k with Some t => table_exec (Some t) | None => ex end,
+                                  params_of_json (Some p)) :: go pss' (S k)
+                             end) pss O in
+              JDict [(S_seq, JList (map (fun rm => match outcome_json (fst rm) with
+                                                   | JDict l => JDict (l ++ [(S_after, md_after_json (snd rm))])
+                                                   | x => x end)
+                                        (verify_seq b64 lds sg now_s now_us d md keys sname runs)))]
+          | _ =>
+              outcome_json (verify b64 lds sg now_s now_us ex d (mkArgs md keys (params_of_json (jget S_params arg)) sname))
           end
       end
   end.
